@@ -28,7 +28,8 @@ UNPROVED = ["pe_hash_eq_msdoc_spec (the section-sorted wording of the Microsoft 
             "cab_digest_eq_spec holds for regular layouts (OffsetFiles = end of the folder headers <= TotalSize); outside them the "
             "code digests files the description rejects: cab_digest_irregular_differs (F35); the specification was written from "
             "memory of osslsigncode / [MS-CAB], no Microsoft-signed cabinet is available offline to validate it",
-            "jar_sections_first_blank_line_full", "jar_fold_unfold_section_full",
+            "jar_sections_first_blank_line holds for uniform line ends (proved, with jar_sections_minimal for every manifest); with mixed line ends the code's "
+            "division differs from the specification's: jar_sections_mixed_line_ends (corpus/C05/jar_mixed_line_ends.ops)",
             "msi_order_eq_spec holds under hypotheses (well-formed, pairwise distinct sibling names; since the repair of Fmsi-tar also with signature names below the root); "
             "outside them the code and the specification differ: msi_cmp_differs_embedded_nul",
             "appx_digest_eq_spec is proved for the layout form of Spec.AppxDigest (Cut); the file form (SpecAppx.ofFile through Spec.Zip.parse) is evaluated on every op and on the Microsoft-signed fixture, not proved"]
